@@ -408,7 +408,9 @@ func runC07White(c *Ctx) {
 		macLen int
 		ivLen  int
 	}
-	for _, s := range []sc{{gmtls.GMTLS_ECC_SM4_CBC_SM3, "CBC", 32, 16}, {gmtls.GMTLS_ECC_SM4_GCM_SM3, "GCM", 0, 4}} {
+	// all four GM suite-table entries: the ECDHE ids share the record protection of their ECC counterparts
+	for _, s := range []sc{{gmtls.GMTLS_ECC_SM4_CBC_SM3, "CBC", 32, 16}, {gmtls.GMTLS_ECC_SM4_GCM_SM3, "GCM", 0, 4},
+		{gmtls.GMTLS_ECDHE_SM4_CBC_SM3, "ECDHE-CBC", 32, 16}, {gmtls.GMTLS_ECDHE_SM4_GCM_SM3, "ECDHE-GCM", 0, 4}} {
 		s := s
 		sizes := []int{0, 1, 15, 16, 17, 31, 32, 100}
 		big := []int{1000, 4096, 16384}
